@@ -50,6 +50,9 @@ CLAIMED = {
     "C12": ("For every solver loop: the save calls of solve(k) are exactly the periodic ones followed by the final one; a periodic save (l, s) exists iff checkpointing is on and l is a multiple of f reached without convergence, and s is the solver state of iteration l; labels strictly increase; with frequency 0 no save is attempted; the directory after ANY sequence of save calls is the m most recent of the accepted saves (a save is accepted iff newer than everything before), holds at most m steps, and the last accepted save is what restore returns. Tied by fresh-process runs over a frequency x retention x history x sync/async grid: save calls, directory listing and the content of retained steps (restored in further processes) are compared with the documented set-builder and with the model store.",
             "Coq 8.16.1 kernel; loop skeleton translated from source; Orbax CheckpointManager (skip when latest >= step, max_to_keep, commit by rename) is a contract (Model/Store.v) validated by the runs.",
             "Coq proof (save-call characterisation, store = last m accepted) + fresh-process directory experiments", "6 C12"),
+    "C11": ("Over the model of Model/Crash.v (solver thread || writer/finalizer thread || Crash, Orbax's tmp-write-rename-then-delete protocol): an invariant preserved by EVERY atomic step of every interleaving shows that after any finite execution, crash at any point included, restore finds either nothing or an intact step holding exactly the state of the iteration it is labelled with, never older than the last executed commit; the invariant survives restart on whatever a crash left (chains); continuing reaches the uninterrupted result (C09); the snapshot-at-call-time assumption is shown load bearing by a refutation of the variant without it. Validated on the real code by SIGKILL experiments: seeded random times, SAVE-BEGIN/END markers, and inotify-staged points (tmp directory creation, first file, rename, deletion of an old step), 1-3 crash rounds, all five solvers, sync/async; the restored state is compared with the independently recomputed trajectory and the model.",
+            "Coq 8.16.1 kernel; Orbax's protocol, POSIX rename atomicity, filesystem and kill semantics are MODELLED (trusted), the real writer thread's interleavings are sampled by kill experiments, not enumerated.",
+            "Coq proof of a crash invariant over all interleavings of a protocol model + staged SIGKILL experiments", "6 C11"),
 }
 
 man = {
